@@ -35,10 +35,13 @@ func runC09(c *ShardCtx) {
 	leafRules := []*peg.Expr{peg.Lit("a"), peg.Lit("ab"), peg.Cls(false, false, "a", "b"), peg.Seq(peg.Lit("a"), peg.Lit("b")), peg.Choice(peg.Lit("a"), peg.Lit("b")), peg.Cls(true, false, "a"), peg.Action(0, peg.Label("x", peg.Lit("a"))), peg.LitI("b")}
 	idx := 0
 	allowInvalid := false
+	noShard := false
 	one := func(g *peg.Grammar, alts [][]string) {
-		idx++
-		if !c.Mine(idx) {
-			return
+		if !noShard {
+			idx++
+			if !c.Mine(idx) {
+				return
+			}
 		}
 		peg.Renumber(g, 1)
 		peg.AssignArgs(g)
@@ -125,6 +128,28 @@ func runC09(c *ShardCtx) {
 			}
 		}
 		return g
+	}
+	// cross family (cross.go): every construct next to every other (blocks, predicates, state, throw /
+	// recover, rule calls to an action rule and to a terminal-only rule), unoptimized vs -optimize-grammar
+	{
+		saved := inputs
+		inputs = crossInputsSmall
+		noShard = true
+		ok := runCross(c, &idx, &crossSpec{maxSize: 3, each: func(g *peg.Grammar, lr bool) {
+			if lr {
+				return // (left recursion: C08 / C10)
+			}
+			alts := [][]string{nil}
+			if g.Rule("R") != nil {
+				alts = append(alts, []string{"R"})
+			}
+			one(g, alts)
+		}})
+		noShard = false
+		inputs = saved
+		if !ok {
+			return
+		}
 	}
 	// two-site family and same-name label family (shared with C01 / C02)
 	{
